@@ -574,6 +574,9 @@ def run(ctx):
             txt += "%s\n#   %s\n" % (case_line("r%d" % new.index(o), (c[0], c[1], ops, c[3])), (what or o["what"])[:700])
         ctx.violation("oracle", txt)
     ctx.notes["oracle_failures"] = len(new)
+    # the pool allocator against a set of live objects (props/C20_arena.py; test leg, added after seed C20_g)
+    from props import C20_arena
+    C20_arena.run_part(ctx)
     return ctx.finish(LEVEL, explanation="refinement theorems over Gallina models of XalanVector/XalanMap (+ the other containers) with constants regenerated from the headers + correspondence of the extracted models with the real templates (internal observables included) + std:: containers in lock-step as the oracle")
 
 
